@@ -5,7 +5,7 @@
    (disabled events leave the state unchanged), all initial operating states [up0] and
    addresses [a0].  Histories are the append-only [log]. *)
 From Coq Require Import ZArith NArith List Bool Arith Lia.
-From LLRP Require Import Driver.Supervisor Driver.SupervisorProofs Driver.SupervisorRetry.
+From LLRP Require Import Driver.Supervisor Driver.SupervisorProofs Driver.SupervisorRetry Driver.Registry Driver.RegistryProofs.
 Import ListNotations.
 
 (* 1. retries until stopped: after any finite run without Stop, a Dial is enabled — at once, or
@@ -246,4 +246,68 @@ Example C15_retry_example :
   R.runs r = 2 /\ kind_of r = KExhausted /\
   log (run (init false 7%N) (quick_events r [Refused; HandshakeThenDropped; ClosedNormally] false)) =
   [LDial 7%N; LFail; LDial 7%N; LHandshake; LReport Up true; LFail; LReport Down true].
+Proof. vm_compute. repeat split; reflexivity. Qed.
+
+(* ------------------------------------------------------------------------------------------
+   "While a device is managed ... until the device is stopped / after Stop it opens no further
+   connections" at the level of the Driver: WHO runs a supervisor for a device name
+   (Driver/Registry.v: getDevice, removeDevice, the deferred cleanup of a supervisor goroutine).
+   [rrun fl evs] for ALL event lists: callers of AddDevice / UpdateDevice / commands overlap in
+   any way, RemoveDevice and late goroutine exits come at any point. *)
+
+(* one device name = at most one supervisor at any moment of any schedule, and it is the one
+   registered (the one RemoveDevice / Driver.Stop will stop): no orphan keeps dialling *)
+Theorem C15_one_supervisor_per_name : forall co evs,
+  let s := rrun (mkRFlags true co) evs in
+  supervisors s <= 1 /\ forall i, In i (live s) -> reg s = Some i.
+Proof. exact one_supervisor. Qed.
+Print Assumptions C15_one_supervisor_per_name.
+
+(* after RemoveDevice returned, nobody dials for that name *)
+Theorem C15_nothing_dials_after_remove : forall co evs,
+  live (rstep (mkRFlags true co) (rrun (mkRFlags true co) evs) RRemove) = [] /\ reg (rstep (mkRFlags true co) (rrun (mkRFlags true co) evs) RRemove) = None.
+Proof. exact nothing_live_after_remove. Qed.
+Print Assumptions C15_nothing_dials_after_remove.
+
+(* a managed device stays managed, its supervisor running, until RemoveDevice: nothing else —
+   in particular not the late exit of an earlier instance of the same name — stops it *)
+Theorem C15_managed_until_removed : forall evs e i,
+  e <> RRemove ->
+  let s := rrun flags_repaired evs in
+  reg s = Some i ->
+  reg (rstep flags_repaired s e) = Some i /\ In i (live (rstep flags_repaired s e)).
+Proof. exact managed_until_removed. Qed.
+Print Assumptions C15_managed_until_removed.
+
+(* every caller is handed the instance registered at that moment *)
+Theorem C15_caller_gets_registered : forall co evs e c i,
+  let s := rrun (mkRFlags true co) evs in
+  got (rstep (mkRFlags true co) s e) = (c, i) :: got s ->
+  reg (rstep (mkRFlags true co) s e) = Some i.
+Proof. exact caller_gets_registered. Qed.
+Print Assumptions C15_caller_gets_registered.
+
+(* the tree as found: the deferred cleanup removed whatever was registered under the NAME.
+   add, remove, add again, then the first instance's goroutine exits: the second registration —
+   a managed device nobody stopped — is stopped and forgotten *)
+Theorem C15_managed_until_removed_refuted :
+  let evs := [RCheck 0; REnter 0; RRemove; RCheck 1; REnter 1] in
+  reg (rrun flags_found evs) = Some 1 /\ live (rrun flags_found evs) = [1] /\ reg (rstep flags_found (rrun flags_found evs) (RExit 0)) = None /\ live (rstep flags_found (rrun flags_found evs) (RExit 0)) = [] /\ (* the repaired cleanup on the same history *)
+  reg (rstep flags_repaired (rrun flags_repaired evs) (RExit 0)) = Some 1 /\ live (rstep flags_repaired (rrun flags_repaired evs) (RExit 0)) = [1].
+Proof. vm_compute. repeat split; reflexivity. Qed.
+Print Assumptions C15_managed_until_removed_refuted.
+
+(* a getDevice that builds its device before taking the write lock: two overlapping callers leave
+   an orphan supervisor that RemoveDevice does not stop *)
+Theorem C15_one_supervisor_create_outside_lock_refuted :
+  let fl := mkRFlags false true in
+  let evs := [RCheck 0; RCheck 1; RCreate 0; RCreate 1; REnter 0; REnter 1] in
+  supervisors (rrun fl evs) = 2 /\ reg (rrun fl evs) = Some 0 /\ live (rstep fl (rrun fl evs) RRemove) = [1] /\ supervisors (rrun flags_repaired evs) = 1.
+Proof. vm_compute. repeat split; reflexivity. Qed.
+Print Assumptions C15_one_supervisor_create_outside_lock_refuted.
+
+(* non-vacuity: three overlapping callers, a removal, a re-registration and both late exits *)
+Example C15_registry_example :
+  let evs := [RCheck 0; RCheck 1; REnter 1; RCheck 2; REnter 0; RRemove; RCheck 3; REnter 3; RExit 0; RExit 1] in
+  reg (rrun flags_repaired evs) = Some 1 /\ live (rrun flags_repaired evs) = [1] /\ got (rrun flags_repaired evs) = [(3, 1); (0, 0); (2, 0); (1, 0)] /\ exited (rrun flags_repaired evs) = [0].
 Proof. vm_compute. repeat split; reflexivity. Qed.
